@@ -725,3 +725,125 @@ def no_runtime_module_state(ctx, clause, modules):
                    f'no module-level container of {mn}.py is written by any function '
                    f'({len(containers)} module-level container(s): {sorted(containers)[:8]})')
     return n_ob
+
+
+# ---------------------------------------------------------------------------------------------------------------
+# In-place rewrites truncate (round 5, seeded change C20-14): a text/JSON file that is rewritten through a handle
+# opened WITHOUT truncation ('r+', 'a+', 'r+b' ...) keeps the tail of its previous content when the new text is
+# shorter -- the next reader sees "Extra data" or a stale suffix.  Such a rewrite must call <handle>.truncate()
+# after its last write.  The expected count on the pinned tree is zero (every rewrite opens with 'w'/'x'), so the
+# site classifier is a pure function over a function's syntax tree and is run on an embedded positive example on
+# every run.
+
+_INPLACE_EXAMPLE = '''
+def _update(path, d):
+    with open(path, 'r+', encoding='utf-8') as fp:
+        d2 = json.load(fp)
+        d2.update(d)
+        fp.seek(0)
+        fp.write(json.dumps(d2))
+    return d2
+
+def _update_ok(path, d):
+    with open(path, 'r+', encoding='utf-8') as fp:
+        d2 = json.load(fp)
+        d2.update(d)
+        fp.seek(0)
+        fp.write(json.dumps(d2))
+        fp.truncate()
+    return d2
+'''
+
+
+def inplace_rewrite_sites(fnode):
+    """[(open call, handle name, mode, [write nodes], [truncate nodes])] for non-truncating read-write opens with a
+    constant mode in one function.  Pure syntax; mode given positionally or by keyword; builtin open / io.open /
+    <path>.open."""
+    out = []
+    for n in own_nodes(fnode):
+        if not isinstance(n, ast.Call):
+            continue
+        nm = dotted(n.func) or ''
+        if nm in ('open', 'io.open'):
+            m = get_arg(n, 1, 'mode')
+        elif isinstance(n.func, ast.Attribute) and n.func.attr == 'open' and nm not in ('tarfile.open', 'os.open'):
+            m = get_arg(n, 0, 'mode')
+        else:
+            continue
+        if not (isinstance(m, ast.Constant) and isinstance(m.value, str)):
+            continue
+        mode = m.value
+        if 'w' in mode or 'x' in mode or '+' not in mode:
+            continue
+        handle = None
+        for w in ast.walk(fnode):
+            if isinstance(w, ast.withitem) and w.context_expr is n and isinstance(w.optional_vars, ast.Name):
+                handle = w.optional_vars.id
+            elif isinstance(w, ast.Assign) and w.value is n and len(w.targets) == 1 and isinstance(w.targets[0], ast.Name):
+                handle = w.targets[0].id
+        if handle is None:
+            continue
+        writes, truncs = [], []
+        for c in own_nodes(fnode):
+            if not isinstance(c, ast.Call):
+                continue
+            cn = dotted(c.func) or ''
+            args = list(c.args) + [k.value for k in c.keywords]
+            uses = any(isinstance(a, ast.Name) and a.id == handle for a in args)
+            if isinstance(c.func, ast.Attribute) and isinstance(c.func.value, ast.Name) and c.func.value.id == handle:
+                if c.func.attr in ('write', 'writelines'):
+                    writes.append(c)
+                elif c.func.attr == 'truncate':
+                    truncs.append(c)
+            elif uses and (cn in ('json.dump', 'print') or (isinstance(c.func, ast.Attribute) and c.func.attr in ('tofile', 'dump'))):
+                writes.append(c)
+            elif cn in ('os.ftruncate',) and any(isinstance(x, ast.Name) and x.id == handle for a in args for x in ast.walk(a)):
+                truncs.append(c)
+        out.append((n, handle, mode, writes, truncs))
+    return out
+
+
+def _inplace_verdict(site):
+    _n, _h, _mode, writes, truncs = site
+    if not writes:
+        return None
+    last = max((w.lineno, w.col_offset) for w in writes)
+    return any((t.lineno, t.col_offset) > last for t in truncs)
+
+
+def inplace_rewrites_truncate(ctx, clause, modules=('datadir', 'metadata', 'utils', 'array', 'raggedarray')):
+    # positive example: the classifier must flag `_update` and accept `_update_ok`
+    ex = ast.parse(_INPLACE_EXAMPLE)
+    v = {f.name: [_inplace_verdict(s) for s in inplace_rewrite_sites(f)] for f in ex.body if isinstance(f, ast.FunctionDef)}
+    if v != {'_update': [False], '_update_ok': [True]}:
+        raise AnalysisError(f'in-place rewrite classifier fails its embedded example: {v}')
+    n_sites = 0
+    n_funcs = 0
+    for f in ctx.repo.all_funcs():
+        if f.module.name not in modules:
+            continue
+        n_funcs += 1
+        for site in inplace_rewrite_sites(f.node):
+            call, handle, mode, writes, truncs = site
+            try:
+                role = ctx.E.pathval(get_arg(call, 0, 'file') if (dotted(call.func) or '') in ('open', 'io.open')
+                                     else call.func.value, f).role
+            except Exception:
+                role = 'UNKNOWN'
+            if role == 'DATA':
+                continue            # the binary data file is extended in place by design (C09 owns that discipline)
+            ok = _inplace_verdict(site)
+            if ok is None:
+                continue
+            n_sites += 1
+            ctx.decide(ok, 'R-PAIR', clause, f, call, f'inplace-rewrite::{role}',
+                       f'{f.qualname}: a file rewritten through a handle opened {mode!r} (no truncation) is cut to its new '
+                       f'length after the last write',
+                       detail=f'`{handle}` is written ({len(writes)} write(s)) but never truncated afterwards: when the new '
+                              f'text is shorter than the old one the tail of the previous content stays in the file '
+                              f'(JSON readers fail with "Extra data", text readers return a stale suffix)')
+    if not n_sites:
+        ctx.ok('R-PAIR', clause, 'darr', None, 'inplace-rewrite',
+               f'no text/JSON file is rewritten through a non-truncating handle ({n_funcs} functions of '
+               f'{list(modules)} scanned; classifier verified on its embedded positive example)')
+    return n_sites
